@@ -73,12 +73,19 @@ class ExcValue(object):
 class Obj(object):
     """Instance of an analysed class."""
 
+    interp = None        # the interpreter that created the object (set by Interp.instantiate)
+
     def __init__(self, cls):
         object.__setattr__(self, 'cls', cls)
         object.__setattr__(self, 'attrs', {})
 
     def __repr__(self):
         return '<%s obj>' % self.cls.name
+
+    def __call__(self, *args, **kwargs):
+        if self.interp is None or not self.interp.has_dunder(self, '__call__'):
+            raise InterpTypeError("'%s' object is not callable" % self.cls.name)
+        return self.interp.call_dunder(self, '__call__', *args, **kwargs)
 
 
 class ClassRef(object):
@@ -268,6 +275,7 @@ class Interp(object):
     # ------------------------------------------------------------------ objects
     def instantiate(self, cls, args, kwargs):
         obj = Obj(cls)
+        object.__setattr__(obj, 'interp', self)
         r = cls.lookup('__init__')
         if r is not None:
             kind, node, owner = r
@@ -410,8 +418,8 @@ class Interp(object):
     def has_dunder(self, obj, name):
         return isinstance(obj, Obj) and obj.cls.lookup(name) is not None
 
-    def call_dunder(self, obj, name, *args):
-        return self.getattr(obj, name)(*args)
+    def call_dunder(self, obj, name, *args, **kwargs):
+        return self.getattr(obj, name)(*args, **kwargs)
 
     # ------------------------------------------------------------------ calls
     def call_closure(self, clo, args, kwargs):
@@ -505,7 +513,7 @@ class Interp(object):
             if self.has_dunder(fn, '__call__'):
                 return self.call_dunder(fn, '__call__', *args, **kwargs)
             raise InterpTypeError("'%s' object is not callable" % fn.cls.name)
-        if not callable(fn):
+        if not callable(fn) or isinstance(fn, (Poly, Rat)):
             raise InterpTypeError("'%s' object is not callable" % type(fn).__name__)
         try:
             return fn(*args, **kwargs)
